@@ -190,7 +190,7 @@ Print Assumptions C01_sequence_tokens_refuted.
    are parsed back *)
 Example C01_guards_qname_inhabited :
   wf_model u_qn root_qn = true
-  /\ fits conv_c05 u_qn ok_c05 py_isspace 1 root_qn o_qn = true
+  /\ fits conv_c05 u_qn ok_c05 py_isspace 2 root_qn o_qn = true
   /\ noq o_qn = false.
 Proof. exact guards_qn. Qed.
 
@@ -205,7 +205,7 @@ Proof. exact real_events_qn. Qed.
    the real handler delivered do not read as the expected tree and are parsed to another instance *)
 Theorem C01_qname_default_ns_refuted :
   wf_model u_qn root_qn = true
-  /\ fits conv_c05 u_qn ok_c05 py_isspace 1 root_qn o_qn = true
+  /\ fits conv_c05 u_qn ok_c05 py_isspace 2 root_qn o_qn = true
   /\ (match expected_qn with Some e => reads_b e pevs_qn_default | None => true end) = false
   /\ ParserCorr.outcome_eqb (Parser.parse cfg_strict conv_c05 u_qn (Some root_qn) pevs_qn_default) (Parser.Ok o_qn []) = false
   /\ has_local_qname o_qn = true.
